@@ -451,6 +451,12 @@ pub fn parse_line(line: &str) -> LineInfo {
             if sep.is_empty() {
                 let is_an_env = libs::re::re_contains(&token, r"^[a-zA-Z0-9_]+=.*$");
                 if !is_an_env && (c == '\'' || c == '"') {
+                    if libs::re::re_contains(&token, r"^([12]?>>?|<|<<<)$") {
+                        // `>"my file"`: the operator is a word of its own,
+                        // the quoted text is its target
+                        result.push((String::new(), token));
+                        token = String::new();
+                    }
                     sep = c.to_string();
                     continue;
                 }
